@@ -119,16 +119,16 @@ func d2b(d float64, b []byte) (e, bits int, dblBits []byte) {
 		k = lo0bits(y)
 		y >>= k
 		if k != 0 {
-			stuffBits(dblBits, 4, y|z<<(32-k))
+			y |= z << (32 - k)
 			z >>= k
-		} else {
-			stuffBits(dblBits, 4, y)
 		}
+		stuffBits(dblBits, 4, y)
 		stuffBits(dblBits, 0, z)
 		if z != 0 {
 			i = 2
 		} else {
 			i = 1
+			z = y /* the most significant non-zero word, for the bit count of a denormal below */
 		}
 	} else {
 		dblBits = b[:4]
